@@ -11,7 +11,7 @@
   `TM.tmAccepts`) is the executable transcription of Tendermint v0.34 `UpdateWithChangeSet` in
   RigoProofs/C10Tm.lean.  FINDINGS are stated as witnesses at the end.
 -/
-import RigoProofs.C10Witness
+import RigoProofs.C10Ledger
 open Std
 
 namespace Rigo.C10
@@ -113,13 +113,13 @@ theorem valset_mirror_step {f : Hex → Hex} (finj : Injective f) (s : St) (ok :
     set: block 1 announces nothing and block 2 announces the genesis delegatees.)
     Hypothesis `he`: what `beginBlock` reads from the committed delegatee ledger is fit for the merge-diff
     at every point of the history (distinct addresses, key = f(address), positive totals) — a ledger
-    invariant (C11 territory), see `valset_mirror_statement` for the hypothesis-free form. -/
+    invariant; `valset_mirror_inputs` below discharges it from input hypotheses. -/
 theorem valset_mirror {f : Hex → Hex} (finj : Injective f) (g : Genesis) (ops : List Op)
     (hc : ∀ op ∈ ops, op.isInit = false)
     (he : ∀ pre post, ops = pre ++ post → EligibleOK f (exec (initChain g) pre)) :
     applyUpdates ∅ (updatesOf (run (initChain g) ops).2) = asSet (exec (initChain g) ops).lastVals := by
   have h := TM.valset_mirror_run finj ops (initChain g) hc (initChain_valsetOK f g) he
-  rw [(initChain_lists g).2] at h
+  rw [(initChain_lists g).2.1] at h
   exact h.1
 
 /-- the general form: from any state satisfying `ValsetOK` (restarts allowed inside the run) -/
@@ -130,33 +130,57 @@ theorem valset_mirror_from {f : Hex → Hex} (finj : Injective f) (ops : List Op
     ValsetOK f (exec s0 ops) :=
   TM.valset_mirror_run finj ops s0 hc ok he
 
-/-- genesis and transaction inputs under which the ledger invariant behind `EligibleOK` is expected to hold:
-    genesis keys are `f address`, addresses are 20 bytes, the minimum validator stake is at least one unit
-    of power, and every delivered transaction's recovered public key is `f sender` -/
-def InputsOK (f : Hex → Hex) (g : Genesis) (ops : List Op) : Prop :=
-  (∀ v ∈ g.vals, v.1 = f v.2.1 ∧ v.2.1.length = 40 ∧ 0 < v.2.2) ∧ amountPerPower ≤ g.params.minValidatorStake ∧
-  (∀ op ∈ ops, ∀ tx, op = Op.deliver tx → tx.pub = f tx.from_ ∧ tx.from_.length = 40 ∧ tx.to.length = 40)
+/-- the ledger invariant behind `EligibleOK`, proved inductive over the abstract transition system of C11
+    (`OpCore`, `step_core`): every stored delegatee (consensus view and every committed version) has
+    `pub = f addr` and non-negative stake powers.  Inputs: genesis entries have key `f address` and non-negative
+    power; every delivered self-staking transaction's recovered public key is `f sender`; the slash ratio is in
+    0..100 at every point of the history (slashing must not produce negative powers). -/
+theorem ledger_pub_and_powers {f : Hex → Hex} {g : Genesis} (hg : GenesisPubOK f g) (ops : List Op)
+    (hops : ∀ op ∈ ops, op.isInit = false ∧ Op.PubOK f op) (hr : RatioAlong (initChain g) ops) :
+    DelegsX f (exec (initChain g) ops).core :=
+  TM.history_delegsX hg ops hops hr
 
-/-- the full-strength statement (NOT proved): the mirror holds along every history (restarts included) under input
-    hypotheses only.  Missing: the inductive ledger invariant (every stored delegatee sits at
-    `ledgerKey addr`, has `pub = f addr`, `total = Σ stake powers ≥ self`, positive stake powers, and the
-    minimum stake stays ≥ 1 power under governance) that yields `EligibleOK` — see `valset_mirror`. -/
-def valset_mirror_statement : Prop :=
+/-- from the two ledger invariants (C11's `DelegsOK`: sums, key = `ledgerKey addr`, 40-hex addresses; and
+    `DelegsX`) and a minimum validator stake of at least one unit of power (and below 2^64 units) the eligible
+    list has distinct addresses, keys `f addr` and POSITIVE totals (eligible ⇒ self ≥ minPower ≥ 1 ⇒ total ≥ self).
+    `MinStakeOK` is the "explicit zero-power exclusion": without it the zero-power finding below applies. -/
+theorem eligibleOK_of_inv {f : Hex → Hex} (s : St) (h1 : DelegsOK s.core) (h2 : DelegsX f s.core)
+    (hmin : MinStakeOK s.active) : EligibleOK f s :=
+  TM.eligibleOK_of_inv s h1 h2 hmin
+
+/-- **valset_mirror under input hypotheses** (the former `valset_mirror_statement`, now a theorem): for every
+    history (any operations in any order, restarts included, no second InitChain) whose inputs satisfy
+    `InputsOK` — genesis validator addresses are 40 hex digits with keys `f address` and non-negative powers,
+    delivered transactions carry even-length hex targets and self-staking transactions the key `f sender` —
+    and along which the active parameters stay sane (`ParamsAlong`: slash ratio in 0..100,
+    10^18 ≤ minValidatorStake < 2^64·10^18), folding all emitted updates over ∅ gives the set of `lastVals`.
+    `ParamsAlong` is a hypothesis on the states of the history, not yet reduced to the governance inputs. -/
+theorem valset_mirror_inputs {f : Hex → Hex} (finj : Injective f) (g : Genesis) (ops : List Op)
+    (hin : InputsOK f g ops) (hp : ParamsAlong (initChain g) ops) :
+    applyUpdates ∅ (updatesOf (run (initChain g) ops).2) = asSet (exec (initChain g) ops).lastVals := by
+  have h := (TM.valset_mirror_inputs finj g ops hin hp).1
+  rw [(initChain_lists g).2.1] at h
+  exact h
+
+/-- "… to the genesis validator set": when the first updates the application emits are the announcement of (a
+    list standing for) the genesis set — which is what block 2 does when block 1 left the genesis delegatees
+    unchanged (`GenesisAnnouncedFirst`) — folding all updates over the GENESIS set gives the set of `lastVals`.
+    Without that hypothesis the statement is false (finding: a genesis validator that unbonds in block 1 is
+    never reported as removed).  The implication "block 1 leaves the delegatees unchanged ⇒
+    `GenesisAnnouncedFirst`" is NOT proved (it needs the evaluation of the first two blocks). -/
+theorem valset_mirror_from_genesis {f : Hex → Hex} (finj : Injective f) (g : Genesis) (ops : List Op)
+    (hin : InputsOK f g ops) (hp : ParamsAlong (initChain g) ops) (hfirst : GenesisAnnouncedFirst g ops) :
+    applyUpdates (genesisSet g) (updatesOf (run (initChain g) ops).2) = asSet (exec (initChain g) ops).lastVals :=
+  TM.valset_mirror_from_genesis finj g ops hin hp hfirst
+
+/-- what is still open, as a statement: the same with the parameter hypothesis only on the INPUTS (genesis
+    parameters and the options of passed governance proposals) instead of on the states of the history -/
+def valset_mirror_params_statement : Prop :=
   ∀ (f : Hex → Hex), Injective f → ∀ (g : Genesis) (ops : List Op), InputsOK f g ops →
-    (∀ op ∈ ops, op.isInit = false) →
+    RatioOK g.params → MinStakeOK g.params →
+    (∀ op ∈ ops, ∀ tx msg st pe ap ty opts, op = Op.deliver tx → tx.payload = Payload.proposal msg st pe ap ty opts →
+      ∀ o ∈ opts, ∀ po, o.parsedA = some po → RatioOK (mergeParams g.params po) ∧ MinStakeOK (mergeParams g.params po)) →
     applyUpdates ∅ (updatesOf (run (initChain g) ops).2) = asSet (exec (initChain g) ops).lastVals
-
-/-- the relation to the GENESIS set (NOT proved, and false without the extra hypothesis — finding below):
-    if block 1 does not change the delegatees, block 2 announces exactly the genesis set, so from then on
-    folding over the genesis set and folding over ∅ agree. -/
-def valset_mirror_from_genesis_statement : Prop :=
-  ∀ (f : Hex → Hex), Injective f → ∀ (g : Genesis) (ops : List Op), InputsOK f g ops →
-    (∀ op ∈ ops, op.isInit = false) →
-    -- GenesisValsUnchangedInBlock1: the first non-empty update list is the announcement of the genesis set
-    (∃ pre post, (run (initChain g) ops).2.map (·.valUpdates) = pre ++ [g.vals.map fun v => (v.1, v.2.2)] ++ post ∧
-        ∀ u ∈ pre, u = []) →
-    applyUpdates (TM.asSet (g.vals.map fun v => ({ addr := v.2.1, pub := v.1, total := v.2.2 } : Delegatee)))
-        (updatesOf (run (initChain g) ops).2) = asSet (exec (initChain g) ops).lastVals
 
 /-! ## findings (witnesses) -/
 
@@ -215,5 +239,32 @@ example : ValsetOK id { lastVals := [exA, exB], allDelegs := [exB, exC] } := by
   · intro d hd; simp at hd; rcases hd with rfl | rfl <;> rfl
   · intro d hd; simp at hd; rcases hd with rfl | rfl <;> rfl
   · intro d hd; simp at hd; rcases hd with rfl | rfl <;> decide
+
+/-- a genesis with two validators whose keys are their addresses (`f = id`) -/
+def exGenesis : Genesis :=
+  { chainId := "t", params := { (default : Params) with slashRatio := 50, minValidatorStake := 7000000000000000000 },
+    holders := [], vals := [("aaaaaaaaaaaaaaaaaaaaaaaaaaaaaaaaaaaaaaaa", "aaaaaaaaaaaaaaaaaaaaaaaaaaaaaaaaaaaaaaaa", 10),
+                            ("bbbbbbbbbbbbbbbbbbbbbbbbbbbbbbbbbbbbbbbb", "bbbbbbbbbbbbbbbbbbbbbbbbbbbbbbbbbbbbbbbb", 9)] }
+
+/-- `InputsOK` and `ParamsAlong` are satisfiable on a non-empty history -/
+example : InputsOK id exGenesis [Op.check {}] := by
+  refine ⟨by decide, ?_, by decide, ?_⟩
+  · intro v hv; simp [exGenesis] at hv; rcases hv with rfl | rfl <;> exact ⟨rfl, by decide⟩
+  · intro op hop; simp at hop; subst hop; trivial
+example : ParamsAlong (initChain exGenesis) [Op.check {}] := by
+  intro pre post e
+  have hact : ∀ s : St, s.active = exGenesis.params → RatioOK s.active ∧ MinStakeOK s.active := by
+    intro s hs; rw [hs]; exact ⟨by decide, by decide⟩
+  rcases pre with _ | ⟨op, pre⟩
+  · exact hact _ (initChain_lists exGenesis).2.2
+  · simp only [List.cons_append, List.cons.injEq] at e
+    obtain ⟨rfl, e⟩ := e
+    have : pre = [] := by cases pre <;> simp_all
+    subst this
+    apply hact
+    rw [exec_cons, exec_nil]
+    have := checkTx_vl (initChain exGenesis) {}
+    simp only [VL, Prod.mk.injEq] at this
+    exact this.2.2.trans (initChain_lists exGenesis).2.2
 
 end Rigo.C10
